@@ -203,6 +203,42 @@ def observe_read_then_append(path: Path, k2: bytes, v2: bytes, keys) -> dict:
             "raw": Path(path).read_bytes()}
 
 
+def observe_one_object_recovery(path: Path, k2: bytes, v2: bytes, k3: bytes, v3: bytes, keys) -> dict:
+    """ONE handle object does the whole recovery: open 'a' on the crashed file, put, close; the same object is opened
+    again read-only (lists, reads), closed, opened again for appending, puts once more, closed; then a fresh reader."""
+    from molli.storage.ukvfile import UKVFile
+
+    outs = []
+    f = None
+    try:
+        f = UKVFile(path, "a")
+        outs.append("ok")
+    except Exception as e:
+        outs.append(err_token(e, "new"))
+    def step(fn, op):
+        if f is None:
+            outs.append("err:no-handle")
+            return
+        try:
+            r = fn()
+            outs.append("ok" if r is None else r)
+        except Exception as e:
+            outs.append(err_token(e, op))
+    step(lambda: f.put(k2, v2), "put")
+    step(lambda: f.close(), "close")
+    step(lambda: f.open("r"), "reopen")
+    step(lambda: keys_token(list(f.keys())), "keys")
+    for k in keys:
+        step(lambda k=k: "val:" + hx(f.get(k)), "get")
+    step(lambda: f.close(), "close")
+    step(lambda: f.open("a"), "reopen")
+    step(lambda: f.put(k3, v3), "put")
+    step(lambda: f.close(), "close")
+    ro = observe_open(path, "r", list(keys) + [k3])
+    return {"outs": outs + ro["outs"], "listed": ro["listed"], "vals": ro["vals"], "file": hx(Path(path).read_bytes()),
+            "raw": Path(path).read_bytes(), "lead": outs[:5] + outs[5 + len(keys):]}
+
+
 # ------------------------------------------------------------------ independent scanner (oracle)
 def scan_file(data: bytes):
     """independent re-parse: returns (header dict, [(key, value)], clean) where clean means the blocks tile
@@ -248,7 +284,13 @@ def oracle_crash(ctx, mode, obs, committed: dict, session: dict, session_list, t
 def oracle_append(ctx, obs, committed: dict, session_list, new, tag):
     k2, v2 = new
     nlead = 5 if tag.get("mode") == "r,a+put" else 3
-    if obs["listed"] is None or not obs["outs"][:nlead] == ["ok"] * nlead:
+    if tag.get("mode") == "one-object":
+        bad = [t for t in obs["lead"] if t.startswith("err:")]
+        if bad:
+            ctx.violation("C03:recovery-with-one-handle-fails",
+                          f"after a crash at byte {tag.get('offset')} the handle that did the recovery append cannot be reused: {bad[:2]}", tag)
+            return
+    elif obs["listed"] is None or not obs["outs"][:nlead] == ["ok"] * nlead:
         ctx.violation("C03:append-after-crash-fails", f"reopen-for-append + put after a crash at byte {tag.get('offset')}: {obs['outs'][:3]}", tag)
         return
     history = dict(committed) | dict(session_list) | {k2: v2}
